@@ -649,3 +649,37 @@ def foreach_assignments(cx, p):
             if list(w) == [(('P', ('elem',)), ())]:
                 out.append((e['args'][0], w[(('P', ('elem',)), ())], k))
     return out
+
+
+def countdown_loops(path):
+    """loops driven by a remaining-count field of a local aggregate (the shape `Take { signal, n }::next` gives a
+    `for x in signal.take(n)` loop once inlined): list of dicts(header, frame, enter, count, local, field, kind) where
+    count is the field's value before the loop, kind is 'iteration' if this path found the count non-zero and carries
+    count - 1 back, 'exit' if it found it zero."""
+    out = []
+    evs = path['events']
+    for k, e in enumerate(evs):
+        if e['kind'] != 'loop-enter':
+            continue
+        hdr, frame = e['header'], e['frame']
+        for local, b in sorted(e['before'].items()):
+            if b[0] != 'agg' or b[1][0] != 'adt':
+                continue
+            for c, v in cond_facts(path):
+                if v[0] != 'bool' or c[0] != 'op' or c[1] not in ('Eq', 'Ne') or c[3] != ('int', 0, 'usize'):
+                    continue
+                x = c[2]
+                if not (x[0] == 'field' and x[1][0] == 'phi' and x[1][1] == hdr and x[1][3] == local and isinstance(x[2], int) and x[2] < len(b[2])):
+                    continue
+                zero = v[1] if c[1] == 'Eq' else (not v[1])
+                f = x[2]
+                if zero:
+                    out.append({'header': hdr, 'frame': frame, 'enter': k, 'count': b[2][f], 'local': local, 'field': f, 'kind': 'exit'})
+                else:
+                    back = [g for g in evs[k + 1:] if g['kind'] == 'loop-back' and g['header'] == hdr and g['frame'] == frame]
+                    car = back[0]['carried'].get(local) if back else None
+                    ok = car is not None and car[0] == 'upd' and car[1] == x[1] and dict(car[2]).get((('f', f),)) == ('op', 'Sub', x, ('int', 1, 'usize')) \
+                        and path['end'] == ('back', hdr, frame)
+                    if ok:
+                        out.append({'header': hdr, 'frame': frame, 'enter': k, 'count': b[2][f], 'local': local, 'field': f, 'kind': 'iteration'})
+    return out
